@@ -430,6 +430,87 @@ fn main() -> Result<(), Error> {{
 """
 
 
+PASS['range_with_short_lived_bounds'] = f"""//@ kind: pass
+//@ what: range bounds are only read while the Range is alive: keys built inside the transaction (formatted prefixes, helper-local vectors, keys read from another bucket) are enough
+{PRELUDE}
+fn scan_prefix(b: &Bucket, prefix: &str) -> usize {{
+    let lo = prefix.as_bytes().to_vec();
+    let mut hi = lo.clone();
+    *hi.last_mut().unwrap() += 1;
+    b.range(lo.as_slice()..hi.as_slice()).count()
+}}
+fn main() -> Result<(), Error> {{
+    let db = DB::open("never-run.db")?;
+    let tx = db.tx(false)?;
+    let users = tx.get_bucket("users")?;
+    let n1 = {{
+        let team = String::from("red");
+        let lo = format!("{{}}:", team);
+        let hi = format!("{{}};", team);
+        users.range(lo.as_bytes()..hi.as_bytes()).count()
+    }};
+    let n2 = scan_prefix(&users, "blue:");
+    let cfg = tx.get_bucket("config")?;
+    let first = cfg.get_kv("first").unwrap();
+    let n3 = users.range(first.value()..).count();
+    sink(&(n1, n2, n3));
+    Ok(())
+}}
+"""
+
+PASS['errors_and_results_cross_threads'] = f"""//@ kind: pass
+//@ what: the crate's error type is Send + Sync + 'static: a worker thread that owns a cloned handle may return Result<_, Error>, and the error converts into Box<dyn Error + Send + Sync>
+{PRELUDE}
+fn assert_send_sync<T: Send + Sync + 'static>() {{}}
+fn worker(db: DB) -> Result<u64, Error> {{
+    let tx = db.tx(true)?;
+    let b = tx.get_or_create_bucket("b")?;
+    let n = b.next_int();
+    tx.commit()?;
+    Ok(n)
+}}
+fn boxed(db: &DB) -> Result<(), Box<dyn std::error::Error + Send + Sync>> {{
+    let tx = db.tx(false)?;
+    tx.get_bucket("b")?;
+    Ok(())
+}}
+fn main() -> Result<(), Error> {{
+    assert_send_sync::<Error>();
+    let db = DB::open("never-run.db")?;
+    let h = {{ let db = db.clone(); std::thread::spawn(move || worker(db)) }};
+    let r: Result<u64, Error> = h.join().unwrap();
+    sink(&r.is_ok());
+    let _ = boxed(&db);
+    Ok(())
+}}
+"""
+
+
+PASS['short_lived_lookup_keys'] = f"""//@ kind: pass
+//@ what: look-ups only read their key: a key that dies right after the call is enough for get / get_kv / delete / seek, and what they return may outlive the key
+{PRELUDE}
+fn main() -> Result<(), Error> {{
+    let db = DB::open("never-run.db")?;
+    let tx = db.tx(true)?;
+    let b = tx.get_or_create_bucket("b")?;
+    let d = {{ let k = format!("k{{}}", 1); b.get(&k) }};
+    let kv = {{ let k = vec![1u8, 2, 3]; b.get_kv(&k) }};
+    let kv2 = {{ let k = String::from("k2"); b.get_kv(k.as_bytes()) }};
+    let mut c = b.cursor();
+    let found = {{ let k = format!("k{{}}", 3); c.seek(k) }};
+    let here = c.current();
+    let gone = {{ let k = format!("k{{}}", 4); b.delete(&k).is_ok() }};
+    sink(&(d, kv, kv2, found, here, gone));
+    let path = String::from("other.db");
+    let db2 = OpenOptions::new().pagesize(4096).open(&path)?;
+    drop(path);
+    let n = db2.tx(false)?.buckets().count();
+    sink(&n);
+    tx.commit()
+}}
+"""
+
+
 def main():
     os.makedirs(OUT, exist_ok=True)
     for f in os.listdir(OUT):
